@@ -481,6 +481,11 @@ impl World {
         self.aliases.insert(public, n);
     }
 
+    /// the public key node n really uses (as its Crypto object holds it)
+    pub fn public_key_in_use(&self, n: usize) -> Option<[u8; 32]> {
+        self.nodes[n].cloud.as_ref().map(|c| with_cloud!(c, c => c.verif_crypto().verif_public_key()))
+    }
+
     pub fn is_up(&self, n: usize) -> bool {
         self.nodes[n].cloud.is_some()
     }
